@@ -125,7 +125,7 @@ pub struct Inner {
     pub name_owner: std::collections::HashMap<String, usize>,
 }
 
-pub type Kicker = Arc<dyn Fn(usize, usize) + Send + Sync>;
+pub type Kicker = Arc<dyn Fn(usize, usize, &str) + Send + Sync>;
 
 pub type TopAction = Arc<dyn Fn(&str, &str) + Send + Sync>;
 
